@@ -52,6 +52,10 @@ pub fn spawn_tftpd(extra: &[&str], ipv6: bool) -> Result<Proc, String> {
         std::fs::create_dir_all(format!("{dir}/srv/sub")).map_err(|e| e.to_string())?;
         std::fs::create_dir_all(format!("{dir}/up")).map_err(|e| e.to_string())?;
         std::fs::write(format!("{dir}/srv/probe.bin"), probe_content()).map_err(|e| e.to_string())?;
+        // readiness token: only OUR server can serve it (two shards can pick the same free port; the loser's tftpd exits
+        // at once and the winner's would otherwise answer our readiness probe)
+        let token = format!("ready-{}-{}", std::process::id(), n);
+        std::fs::write(format!("{dir}/srv/ready.tok"), &token).map_err(|e| e.to_string())?;
         let port = free_port(ipv6);
         let ip = if ipv6 { "::1" } else { "127.0.0.1" };
         let mut cmd = Command::new(tftpd_path());
@@ -60,20 +64,36 @@ pub fn spawn_tftpd(extra: &[&str], ipv6: bool) -> Result<Proc, String> {
         let child = cmd.spawn().map_err(|e| format!("spawn: {e}"))?;
         let addr: SocketAddr = format!("{}:{}", if ipv6 { "[::1]" } else { "127.0.0.1" }, port).parse().unwrap();
         let mut p = Proc { child, addr, dir };
-        // readiness: a request for a missing file is refused with an ERROR by the listen loop
-        let s = udp_client(ipv6);
-        let _ = s.set_read_timeout(Some(Duration::from_millis(2)));
+        // readiness: the token file is served (a fresh socket per probe, so stale replies cannot be confused)
         let t0 = Instant::now();
         let mut buf = [0u8; 600];
         let mut ready = false;
-        while t0.elapsed() < Duration::from_secs(3) {
+        while t0.elapsed() < Duration::from_secs(3) && !ready {
             if let Ok(Some(_)) = p.child.try_wait() {
                 break; // exited at start-up (port taken): retry with another port
             }
-            let _ = s.send_to(&rc::request(false, b"__ready__", &[]), addr);
-            if s.recv_from(&mut buf).is_ok() {
-                ready = true;
-                break;
+            let s = udp_client(ipv6);
+            let _ = s.set_read_timeout(Some(Duration::from_millis(3)));
+            let _ = s.send_to(&rc::request(false, b"ready.tok", &[]), addr);
+            if let Ok((k, from)) = s.recv_from(&mut buf) {
+                if let Ok(RPacket::Data { block: 1, data }) = rc::decode(&buf[..k]) {
+                    let _ = s.send_to(&rc::ack(1), from);
+                    if data == token.as_bytes() {
+                        ready = true;
+                    }
+                }
+            }
+        }
+        if ready {
+            // let the readiness transfers end (their workers exit right after the ACK)
+            let status = format!("/proc/{}/status", p.child.id());
+            let threads = || std::fs::read_to_string(&status).ok().and_then(|s| s.lines().find_map(|l| l.strip_prefix("Threads:").and_then(|v| v.trim().parse::<usize>().ok()))).unwrap_or(1);
+            let t1 = Instant::now();
+            while threads() > 1 && t1.elapsed() < Duration::from_millis(500) {
+                std::thread::sleep(Duration::from_micros(200));
+            }
+            if let Ok(Some(_)) = p.child.try_wait() {
+                ready = false;
             }
         }
         if ready {
@@ -201,7 +221,10 @@ fn run_sequence(single: bool, read_only: bool, seq: &[(usize, bool)], alpha: &[(
         let mut expect = 1u16;
         loop {
             match s1.recv_from(&mut buf) {
-                Err(_) => return Err("the preparatory download got no answer".into()),
+                Err(_) => {
+                    let alive = p.child.try_wait().ok().flatten().is_none();
+                    return Err(format!("the preparatory download got no answer while waiting for DATA({expect}) (single={single}, server alive={alive})"));
+                }
                 Ok((n, from)) => {
                     if let Ok(RPacket::Data { block, data }) = rc::decode(&buf[..n]) {
                         if block == expect {
@@ -275,7 +298,14 @@ pub fn cell(spec: &Value) -> Value {
         if budget.over(&mut c) {
             break;
         }
-        let r = run_sequence(single, read_only, &seq, &alpha, after);
+        // a failed preparation (not a verdict) is retried with a fresh server before it is reported as a machinery problem
+        let mut r = run_sequence(single, read_only, &seq, &alpha, after);
+        let mut tries = 1;
+        while r.is_err() && tries < 3 {
+            c.add_extra("sequences_retried_after_failed_preparation", 1);
+            r = run_sequence(single, read_only, &seq, &alpha, after);
+            tries += 1;
+        }
         c.executions += 1;
         c.states += 1;
         c.transitions += seq.len() as u64 + 1;
